@@ -49,6 +49,29 @@ let ldlt_sqrt (_ : nat) (a : Obj.t list list) : Obj.t list list =
   done done;
   lmx_of_mat r
 
+(* A x = b by Gaussian elimination with partial pivoting *)
+let solve (a : float array array) (b : float array) : float array =
+  let n = Array.length b in
+  let a = Array.map Array.copy a and b = Array.copy b in
+  for k = 0 to n - 1 do
+    let p = ref k in
+    for i = k + 1 to n - 1 do if abs_float a.(i).(k) > abs_float a.(!p).(k) then p := i done;
+    let t = a.(k) in a.(k) <- a.(!p); a.(!p) <- t;
+    let t = b.(k) in b.(k) <- b.(!p); b.(!p) <- t;
+    for i = k + 1 to n - 1 do
+      let f = a.(i).(k) /. a.(k).(k) in
+      for j = k to n - 1 do a.(i).(j) <- a.(i).(j) -. f *. a.(k).(j) done;
+      b.(i) <- b.(i) -. f *. b.(k)
+    done
+  done;
+  let x = Array.make n 0.0 in
+  for i = n - 1 downto 0 do
+    let s = ref b.(i) in
+    for j = i + 1 to n - 1 do s := !s -. a.(i).(j) *. x.(j) done;
+    x.(i) <- !s /. a.(i).(i)
+  done;
+  x
+
 let particles_of (st : float array array) (mean : float array array) (cov : float array array)
     (lw : float array array) : ptuple list =
   let n = Array.length mean in
@@ -79,6 +102,9 @@ let () =
     (fun (c : Caseio.case) ->
       match List.find_opt (fun (r : Caseio.case) -> r.id = c.id) impl with
       | None -> ()
+      | Some _ when c.kind <> "gpf" && c.kind <> "gpf_ks" ->
+        (* lifetime kinds: nothing to compute (the statement is refuted at model level, see Properties_C08.v) *)
+        Caseio.out_begin c.id; Caseio.out_end ()
       | Some io ->
         let n = Caseio.meta_int c "n" and m = Caseio.meta_int c "m" and nn = Caseio.meta_int c "N" in
         let steps = Caseio.meta_int c "steps" in
@@ -94,21 +120,60 @@ let () =
           let zs = List.init nn (fun i -> lmx_of_mat (mat_col z i)) in
           (((lmx_of_mat (mat_col ys k), mv.(k) <> "0"), lok.(k) <> "0"), zs) in
         min_gap := infinity; max_resid := 0.0;
-        let tr = c08_trace fops ldlt_sqrt (nat_of_int n) (nat_of_int m) (g "F") (g "Q") (g "H") (g "R") (ob scale)
-                   (nat_of_int tkind) (g "Ft") (g "Qt") (set "p") (set "c") (List.init steps step) in
+        let run_step pred corr st =
+          match c08_trace fops ldlt_sqrt (nat_of_int n) (nat_of_int m) (g "F") (g "Q") (g "H") (g "R") (ob scale)
+                  (nat_of_int tkind) (g "Ft") (g "Qt") pred corr [ st ] with
+          | [ r ] -> r
+          | _ -> failwith "c08_trace: one step expected" in
         Caseio.out_begin c.id;
-        List.iteri
-          (fun k (((pred, corr), valid), lik) ->
-            out_set (Printf.sprintf "p%d" k) n pred;
-            out_set (Printf.sprintf "c%d" k) n corr;
-            Caseio.out_int (Printf.sprintf "valid%d" k) (if valid then 1 else 0);
-            Caseio.out_mat_shape (Printf.sprintf "lik%d" k) (List.length lik) 1
-              (Array.of_list (List.map (fun x -> [| fl x |]) lik));
-            (* proposal density of the model at its own corrected set *)
-            Caseio.out_mat_shape (Printf.sprintf "q%d" k) (List.length corr) 1
-              (Array.of_list (List.map (fun (((x, mu), p), _) -> [| fl (c08_proposal fops ldlt_sqrt (nat_of_int n) x mu p) |]) corr)))
-          tr;
+        let pred = ref (set "p") and corr = ref (set "c") in
+        let max_zz = ref 0.0 and refact = ref 0 in
+        for k = 0 to steps - 1 do
+          let (((y, mv_), lok_), zs) = step k in
+          let r0 = run_step !pred !corr (((y, mv_), lok_), zs) in
+          let (((_, corr0), valid0), _) = r0 in
+          (* The property leaves the square-root factor free (any L with L L^T = P).  If the implementation's
+             positions differ from m + L z for the driver's L, the positions are compared through the relation
+             instead: z' = L^-1 (x_impl - m) must satisfy |z'|^2 = |z|^2 (reported as zz_dev), and the step is
+             re-run on z' so that everything downstream is still compared. *)
+          let r =
+            if valid0 && Caseio.has io (Printf.sprintf "c%d_state" k) && Caseio.get_int io (Printf.sprintf "valid%d" k) = 1 then begin
+              let xi = Caseio.get_mat io (Printf.sprintf "c%d_state" k) in
+              let dev = ref 0.0 in
+              List.iteri (fun i (((x, _), _), _) ->
+                  let xm = mat_of_lmx x in
+                  for r = 0 to n - 1 do
+                    let d = abs_float (xm.(r).(0) -. xi.(r).(i)) /. (1.0 +. abs_float xi.(r).(i)) in
+                    if d > !dev || d <> d then dev := d
+                  done) corr0;
+              if !dev > 1e-6 then begin
+                incr refact;
+                let zs' = List.mapi (fun i ((((_, mu), p), _), z) ->
+                    let l = mat_of_lmx (ldlt_sqrt (nat_of_int n) p) and mu = mat_of_lmx mu in
+                    let rhs = Array.init n (fun r -> xi.(r).(i) -. mu.(r).(0)) in
+                    let z' = solve l rhs in
+                    let zz = Array.fold_left (fun a v -> a +. v *. v) 0.0 z'
+                    and zz0 = List.fold_left (fun a row -> List.fold_left (fun a v -> a +. fl v *. fl v) a row) 0.0 z in
+                    let d = abs_float (zz -. zz0) /. (1.0 +. zz0) in
+                    if d > !max_zz || d <> d then max_zz := d;
+                    lmx_of_mat (Array.map (fun v -> [| v |]) z')) (List.combine corr0 zs) in
+                run_step !pred !corr (((y, mv_), lok_), zs')
+              end else r0
+            end else r0 in
+          let (((pred', corr'), valid), lik) = r in
+          out_set (Printf.sprintf "p%d" k) n pred';
+          out_set (Printf.sprintf "c%d" k) n corr';
+          Caseio.out_int (Printf.sprintf "valid%d" k) (if valid then 1 else 0);
+          Caseio.out_mat_shape (Printf.sprintf "lik%d" k) (List.length lik) 1
+            (Array.of_list (List.map (fun x -> [| fl x |]) lik));
+          (* proposal density of the model at its own corrected set *)
+          Caseio.out_mat_shape (Printf.sprintf "q%d" k) (List.length corr') 1
+            (Array.of_list (List.map (fun (((x, mu), p), _) -> [| fl (c08_proposal fops ldlt_sqrt (nat_of_int n) x mu p) |]) corr'));
+          pred := pred'; corr := corr'
+        done;
         Caseio.out_num "pivot_gap" !min_gap;
         Caseio.out_num "sqrt_resid" !max_resid;
+        Caseio.out_int "other_factor_steps" !refact;
+        Caseio.out_num "zz_dev" !max_zz;
         Caseio.out_end ())
     cases
